@@ -18,3 +18,84 @@ package executable
 //@   on call syscall.Kill : assert pend == 1 && killed == 0 && arg0 == -t.taskCmd.Process.Pid && arg1 == syscall.SIGKILL ; killed = killed + 1
 //@   ensures old(t.taskCmd != nil && t.Tci.ControlMode != controlmode.HOOK && t.taskCmd.Process != nil && t.taskCmd.ProcessState == nil) ==> pend == 1 && killed == 1
 //@   ensures old(t.taskCmd == nil || t.Tci.ControlMode == controlmode.HOOK || t.taskCmd.Process == nil) ==> pend == 0 && killed == 0 && err == nil
+
+// the basic task's transition function: START starts the child, STOP kills it, everything else is a no-op that succeeds
+//@ closure (*BasicTask).makeTransitionFunc #1
+//@   property C17
+//@   requires t != nil && t.Tci != nil && t.ti != nil && log != nil
+//@   ghostvar started int = 0
+//@   ghostvar stopped int = 0
+//@   on call (*basicTaskBase).startBasicTask : assert ei.Src == "CONFIGURED" && ei.Evt == "START" && ei.Dst == "RUNNING" && started == 0 ; started = 1
+//@   on call (*basicTaskBase).ensureBasicTaskKilled : assert ei.Src == "RUNNING" && ei.Evt == "STOP" && ei.Dst == "CONFIGURED" && stopped == 0 ; stopped = 1
+//@   ensures ei.Src == "RUNNING" && ei.Evt == "STOP" && ei.Dst == "CONFIGURED" ==> stopped == 1 && newState == "CONFIGURED"
+//@   ensures ei.Src == "CONFIGURED" && ei.Evt == "START" && ei.Dst == "RUNNING" ==> started == 1 && (err == nil ==> newState == "RUNNING") && (err != nil ==> newState == "CONFIGURED")
+
+// ---------------------------------------------------------------------------------------------------------
+// C17: TERM / INT / KILL escalation: bounded (no loop; the only waits are the three constants), and it returns only
+// after the process was seen gone or SIGKILL was sent.
+//@ func pidExists(pid int) (b bool)
+//@   noverify
+//@   modifies nothing
+
+//@ func (t *ControllableTask) doTermIntKill(pid int) (err error)
+//@   property C17
+//@   ghostvar lastGone bool = false
+//@   ghostvar kill9 int = 0
+//@   on aftercall pidExists : assert arg0 == pid ; lastGone = !result
+//@   on call (*ControllableTask).doKill9 : assert arg1 == pid && kill9 == 0 ; kill9 = 1
+//@   on call time.Sleep : assert arg0 == SIGTERM_TIMEOUT || arg0 == SIGINT_TIMEOUT
+//@   on call time.After : assert arg0 == SIGTERM_TIMEOUT + SIGINT_TIMEOUT
+//@   on call syscall.Kill : assert arg0 == pid && arg1 == syscall.SIGINT
+//@   ensures kill9 == 1 || lastGone
+//@ closure (*ControllableTask).doTermIntKill #1
+//@   property C17
+//@   ghostvar term int = 0
+//@   ghostvar told int = 0
+//@   on call syscall.Kill : assert arg0 == pid && arg1 == syscall.SIGTERM && term == 0 ; term = 1
+//@   on send * : assert term == 1 && told == 0 ; told = 1
+//@   ensures term == 1 && told == 1
+
+//@ func (t *ControllableTask) doKill9(pid int) (err error)
+//@   property C17
+//@   ghostvar k int = 0
+//@   on call syscall.Kill : assert arg0 == pid && arg1 == syscall.SIGKILL && k == 0 ; k = 1
+//@   ensures k == 1
+
+// ---------------------------------------------------------------------------------------------------------
+// C17: killing a controllable task. The walk towards DONE cannot go on forever: every step that does not break out of
+// the loop ended, by the transitioner's contract, in a state of strictly lower rank; exactly one final state is handed
+// to the reaper per Kill - FINISHED iff DONE was reached, KILLED otherwise (never FAILED); then the process is signalled
+// through the TERM/INT/KILL escalation unless it is already gone.
+//@ ghost pure func rank(s string) int = if s == "RUNNING" then 3 else if s == "CONFIGURED" then 2 else if s == "DONE" then 0 else 1
+//@ ghost pure func walkEvt(e string) bool = e == "START" || e == "STOP" || e == "CONFIGURE" || e == "RESET" || e == "EXIT"
+
+//@ func (t *ControllableTask) Kill() (err error)
+//@   property C17
+//@   opt strings=uf
+//@   requires t != nil && t.ti != nil && log != nil && t.rpc != nil
+//@   ghostvar pend int = 0
+//@   on select * : assume index == 0 ==> value0 != nil && (value0.transitionError == nil && walkEvt(cmd.Event) ==> value0.newState == cmd.Destination)
+//@   on send * : assert pend == 0 && (value == mesos.TASK_FINISHED || value == mesos.TASK_KILLED) && ((value == mesos.TASK_FINISHED) == (reachedState == "DONE")) ; pend = 1
+//@   on call (*ControllableTask).doTermIntKill : assert pend == 1 && arg1 == pid
+//@   loop 1 invariant pend == 0
+//@   loop 1 decreases rank(reachedState)
+//@   ensures pend == 1
+
+// which transition leads one step down from a state
+//@ closure (*ControllableTask).Kill #1
+//@   property C17
+//@   opt strings=uf
+//@   ensures exc != nil
+//@   ensures currentState == "RUNNING" ==> exc.Event == "STOP" && exc.Destination == "CONFIGURED"
+//@   ensures currentState == "CONFIGURED" ==> exc.Event == "RESET" && exc.Destination == "STANDBY"
+//@   ensures currentState == "ERROR" || currentState == "STANDBY" ==> exc.Event == "EXIT" && exc.Destination == "DONE"
+//@   ensures currentState != "RUNNING" && currentState != "CONFIGURED" && currentState != "ERROR" && currentState != "STANDBY" ==> exc.Event == ""
+
+// the committing goroutine reports what Commit returned, once
+//@ closure (*ControllableTask).Kill #2
+//@   property C17
+//@   opt strings=uf
+//@   requires cmd != nil && cmd.Transitioner != nil
+//@   ghostvar told int = 0
+//@   on send * : assert told == 0 && value != nil && (value.transitionError == nil && walkEvt(cmd.Event) ==> value.newState == cmd.Destination) ; told = 1
+//@   ensures told == 1
